@@ -3,8 +3,10 @@ package main
 import (
 	"encoding/json"
 	"math/rand"
+	"sort"
 	"strconv"
 
+	"github.com/Trisia/randomness"
 	"github.com/Trisia/randomness/detect"
 )
 
@@ -163,6 +165,46 @@ func thresholdQTrace(job []byte, out *Out) error {
 			pv = append(pv, Bits(detect.ThresholdQ(cp)))
 		}
 		out.Emit(map[string]interface{}{"ev": "thresholdq", "qs": ss, "v": F(v), "vbits": Bits(v), "pv": pv})
+	}
+	return nil
+}
+
+func init() { register("igamc-trace", igamcTrace) }
+
+// job: {"chains":[{"a2":..,"xs":["..",...]}]} -> one event per chain with the float64 arguments actually used
+func igamcTrace(job []byte, out *Out) error {
+	var j struct {
+		Chains []struct {
+			A2 int      `json:"a2"`
+			Xs []string `json:"xs"`
+		} `json:"chains"`
+	}
+	if err := json.Unmarshal(job, &j); err != nil {
+		return err
+	}
+	for _, c := range j.Chains {
+		xs, err := parseList(c.Xs)
+		if err != nil {
+			return err
+		}
+		sort.Float64s(xs)
+		a := float64(c.A2) / 2
+		sx := make([]string, len(xs))
+		sq := make([]string, len(xs))
+		ev := map[string]interface{}{"ev": "igamc", "a2": c.A2}
+		func() {
+			defer func() {
+				if p := recover(); p != nil {
+					ev["panic"] = true
+				}
+			}()
+			for i, x := range xs {
+				sx[i] = F(x)
+				sq[i] = F(randomness.Igamc(a, x))
+			}
+		}()
+		ev["xs"], ev["qs"] = sx, sq
+		out.Emit(ev)
 	}
 	return nil
 }
